@@ -209,6 +209,13 @@ class Program:
             raise AnchorMissing("const %s" % path)
         return c
 
+    def find_trait_method(self, trait, self_ty, method):
+        """body of `impl <trait> for <self_ty> { fn <method> }` whatever module the impl lives in"""
+        for path, b in self.bodies.items():
+            if b.self_ty == self_ty and path.endswith("::" + method) and trait in path and b.kind == "AssocFn":
+                return b
+        return None
+
     def field_index(self, adt, name, variant=0):
         t = self.need_type(adt)
         for i, f in enumerate(t["variants"][variant]["fields"]):
